@@ -218,8 +218,9 @@ class MultiportXORMemory(BaseMultiportMemory):
             m.d.sync += [write_regs_data[index].eq(write_port.data), write_regs_addr[index].eq(write_port.addr)]
             write_xors[index] ^= write_regs_data[index]
             for i in range(len(self.write_ports) - 1):
+                init = self.init if index == 0 else []
                 mem = memory.Memory(
-                    shape=self.shape, depth=self.depth, init=[], attrs=self.attrs, src_loc_at=self.src_loc
+                    shape=self.shape, depth=self.depth, init=init, attrs=self.attrs, src_loc_at=self.src_loc
                 )
                 mem_name = f"memory_{index}_{i}"
                 m.submodules[mem_name] = mem
